@@ -5,18 +5,23 @@ Open Scope N_scope.
 
 (* ------------------------------------------------------------------ observers on event lists *)
 Definition is_ghost (e : cevent) : bool :=
-  match e with CEngine _ _ _ | CRequeued _ _ | CRegistered _ _ => true | _ => false end.
+  match e with CEngine _ _ _ | CNoDb _ _ _ | CRequeued _ _ | CRegistered _ _ => true | _ => false end.
 
-(* commands for which db.Lock / db.UnLock was entered on behalf of a WILL of connection c, in order *)
-Fixpoint will_steps (c : N) (evs : list cevent) : list cmd :=
+(* commands of WILLs of connection c that ProcessCommad executed (case COMMAND_LOCK / COMMAND_UNLOCK entered: db.Lock /
+   db.UnLock called, or -- for a missing database -- RESULT_UNKNOWN_DB answered and the command freed), in order *)
+Fixpoint will_steps (c : N) (evs : list cevent) : list xcmd :=
   match evs with
   | [] => []
   | CEngine c' true cm :: r => if c' =? c then cm :: will_steps c r else will_steps c r
+  | CNoDb c' true cm :: r => if c' =? c then cm :: will_steps c r else will_steps c r
   | _ :: r => will_steps c r
   end.
 
+(* the ghost mark of one executed command *)
+Definition gh (c : N) (w : bool) (x : xcmd) : cevent := if db_missing x then CNoDb c w x else CEngine c w x.
+
 (* commands accepted into the will queue of c, in order *)
-Fixpoint regs (c : N) (evs : list cevent) : list cmd :=
+Fixpoint regs (c : N) (evs : list cevent) : list xcmd :=
   match evs with
   | [] => []
   | CRegistered c' cm :: r => if c' =? c then cm :: regs c r else regs c r
@@ -26,7 +31,7 @@ Fixpoint regs (c : N) (evs : list cevent) : list cmd :=
 Lemma will_steps_app c a b : will_steps c (a ++ b) = will_steps c a ++ will_steps c b.
 Proof.
   induction a as [|e a IH]; simpl; auto.
-  destruct e; simpl; auto. destruct will; auto. destruct (c0 =? c); simpl; congruence.
+  destruct e; simpl; auto; destruct will; auto; destruct (c0 =? c); simpl; congruence.
 Qed.
 Lemma regs_app c a b : regs c (a ++ b) = regs c a ++ regs c b.
 Proof.
@@ -114,17 +119,22 @@ Qed.
 
 (* ------------------------------------------------------------------ exec_req: shape and frame *)
 Lemma exec_req_shape cf st c cm w :
-  exists ev, snd (fst (exec_req cf st c cm w)) = CEngine c w cm :: ev /\ ghostfree ev.
+  exists ev, snd (fst (exec_req cf st c cm w)) = gh c w cm :: ev /\ ghostfree ev.
 Proof.
-  unfold exec_req.
-  destruct (if c_lock cm then lock_step (cs_db st) c cm else unlock_step (cs_db st) c cm) as [[d1 ev1] wk].
-  pose proof (route_ghostfree cf (cs_conns st) (cs_clients st) (Some (c, c_req cm)) ev1 (cs_rs st)) as G1.
-  destruct (route cf (cs_conns st) (cs_clients st) (cs_rs st) (Some (c, c_req cm)) ev1) as [[rs1 ce1] o1]. simpl in G1.
+  unfold exec_req, gh. destruct (db_missing cm).
+  { pose proof (sync_result_ghostfree cf (cs_conns st) (cs_clients st) (cs_rs st) c
+                  (mkRep (c_req (x_cmd cm)) R_UNKNOWN_DB 0 0 (c_lockid (x_cmd cm)))) as G.
+    destruct (sync_result cf (cs_conns st) (cs_clients st) (cs_rs st) c
+                (mkRep (c_req (x_cmd cm)) R_UNKNOWN_DB 0 0 (c_lockid (x_cmd cm)))) as [[rs1 ce1] o1].
+    eexists; split; [reflexivity|exact G]. }
+  destruct (if c_lock (x_cmd cm) then lock_step (cs_db st) c (x_cmd cm) else unlock_step (cs_db st) c (x_cmd cm)) as [[d1 ev1] wk].
+  pose proof (route_ghostfree cf (cs_conns st) (cs_clients st) (Some (c, c_req (x_cmd cm))) ev1 (cs_rs st)) as G1.
+  destruct (route cf (cs_conns st) (cs_clients st) (cs_rs st) (Some (c, c_req (x_cmd cm))) ev1) as [[rs1 ce1] o1]. simpl in G1.
   destruct o1; try (eexists; split; [reflexivity|exact G1]).
   destruct wk as [wk|]; [|eexists; split; [reflexivity|exact G1]].
   destruct (run_wake (wake_fuel d1 (w_key wk)) d1 wk) as [d2 ev2].
-  pose proof (route_ghostfree cf (cs_conns st) (cs_clients st) (Some (c, c_req cm)) ev2 rs1) as G2.
-  destruct (route cf (cs_conns st) (cs_clients st) rs1 (Some (c, c_req cm)) ev2) as [[rs2 ce2] o2]. simpl in G2.
+  pose proof (route_ghostfree cf (cs_conns st) (cs_clients st) (Some (c, c_req (x_cmd cm))) ev2 rs1) as G2.
+  destruct (route cf (cs_conns st) (cs_clients st) rs1 (Some (c, c_req (x_cmd cm))) ev2) as [[rs2 ce2] o2]. simpl in G2.
   eexists; split; [reflexivity|]. apply ghostfree_app; assumption.
 Qed.
 
@@ -133,34 +143,59 @@ Lemma exec_req_frame cf st c cm w :
   cs_conns st' = cs_conns st /\ cs_clients st' = cs_clients st /\ cs_wills st' = cs_wills st /\
   cs_dead st' = cs_dead st /\ cs_stuck st' = cs_stuck st.
 Proof.
-  unfold exec_req.
-  destruct (if c_lock cm then lock_step (cs_db st) c cm else unlock_step (cs_db st) c cm) as [[d1 ev1] wk].
-  destruct (route cf (cs_conns st) (cs_clients st) (cs_rs st) (Some (c, c_req cm)) ev1) as [[rs1 ce1] o1].
+  unfold exec_req. destruct (db_missing cm).
+  { destruct (sync_result cf (cs_conns st) (cs_clients st) (cs_rs st) c
+                (mkRep (c_req (x_cmd cm)) R_UNKNOWN_DB 0 0 (c_lockid (x_cmd cm)))) as [[rs1 ce1] o1].
+    simpl; repeat split; reflexivity. }
+  destruct (if c_lock (x_cmd cm) then lock_step (cs_db st) c (x_cmd cm) else unlock_step (cs_db st) c (x_cmd cm)) as [[d1 ev1] wk].
+  destruct (route cf (cs_conns st) (cs_clients st) (cs_rs st) (Some (c, c_req (x_cmd cm))) ev1) as [[rs1 ce1] o1].
   destruct o1; [|simpl; repeat split; reflexivity..].
   destruct wk as [wk|]; [|simpl; repeat split; reflexivity].
   destruct (run_wake (wake_fuel d1 (w_key wk)) d1 wk) as [d2 ev2].
-  destruct (route cf (cs_conns st) (cs_clients st) rs1 (Some (c, c_req cm)) ev2) as [[rs2 ce2] o2].
+  destruct (route cf (cs_conns st) (cs_clients st) rs1 (Some (c, c_req (x_cmd cm))) ev2) as [[rs2 ce2] o2].
   simpl; repeat split; reflexivity.
 Qed.
+
+Lemma exec_req_ever cf st c cm w : cs_ever (fst (fst (exec_req cf st c cm w))) = cs_ever st.
+Proof.
+  unfold exec_req. destruct (db_missing cm).
+  { destruct (sync_result cf (cs_conns st) (cs_clients st) (cs_rs st) c
+                (mkRep (c_req (x_cmd cm)) R_UNKNOWN_DB 0 0 (c_lockid (x_cmd cm)))) as [[rs1 ce1] o1].
+    reflexivity. }
+  destruct (if c_lock (x_cmd cm) then lock_step (cs_db st) c (x_cmd cm) else unlock_step (cs_db st) c (x_cmd cm)) as [[d1 ev1] wk].
+  destruct (route cf (cs_conns st) (cs_clients st) (cs_rs st) (Some (c, c_req (x_cmd cm))) ev1) as [[rs1 ce1] o1].
+  destruct o1; [|reflexivity..].
+  destruct wk as [wk|]; [|reflexivity].
+  destruct (run_wake (wake_fuel d1 (w_key wk)) d1 wk) as [d2 ev2].
+  destruct (route cf (cs_conns st) (cs_clients st) rs1 (Some (c, c_req (x_cmd cm))) ev2) as [[rs2 ce2] o2].
+  reflexivity.
+Qed.
+
+(* what one executed command does to the lock engine: nothing when it names a missing database *)
+Definition eng_step (c : N) (d : db) (x : xcmd) : db :=
+  if db_missing x then d else fst (step d (AReq c (x_cmd x))).
 
 (* without an interruption of the requesting goroutine the engine part of exec_req is exactly the engine's request step *)
 Lemma exec_is_step cf st c cm w :
   snd (exec_req cf st c cm w) = OOk ->
-  cs_db (fst (fst (exec_req cf st c cm w))) = fst (step (cs_db st) (AReq c cm)).
+  cs_db (fst (fst (exec_req cf st c cm w))) = eng_step c (cs_db st) cm.
 Proof.
-  unfold exec_req, step, finish.
-  destruct (if c_lock cm then lock_step (cs_db st) c cm else unlock_step (cs_db st) c cm) as [[d1 ev1] wk].
-  destruct (route cf (cs_conns st) (cs_clients st) (cs_rs st) (Some (c, c_req cm)) ev1) as [[rs1 ce1] o1].
+  unfold exec_req, eng_step, step, finish. destruct (db_missing cm).
+  { destruct (sync_result cf (cs_conns st) (cs_clients st) (cs_rs st) c
+                (mkRep (c_req (x_cmd cm)) R_UNKNOWN_DB 0 0 (c_lockid (x_cmd cm)))) as [[rs1 ce1] o1].
+    reflexivity. }
+  destruct (if c_lock (x_cmd cm) then lock_step (cs_db st) c (x_cmd cm) else unlock_step (cs_db st) c (x_cmd cm)) as [[d1 ev1] wk].
+  destruct (route cf (cs_conns st) (cs_clients st) (cs_rs st) (Some (c, c_req (x_cmd cm))) ev1) as [[rs1 ce1] o1].
   destruct o1; [|cbn [snd]; discriminate..].
   destruct wk as [wk|]; [|reflexivity].
   destruct (run_wake (wake_fuel d1 (w_key wk)) d1 wk) as [d2 ev2].
-  destruct (route cf (cs_conns st) (cs_clients st) rs1 (Some (c, c_req cm)) ev2) as [[rs2 ce2] o2].
+  destruct (route cf (cs_conns st) (cs_clients st) rs1 (Some (c, c_req (x_cmd cm))) ev2) as [[rs2 ce2] o2].
   reflexivity.
 Qed.
 
 (* ------------------------------------------------------------------ the will loop of Close *)
 Definition plain (ws : list wcmd) : Prop := forallb (fun w => negb (fst w)) ws = true.
-Definition runnable (ws : list wcmd) : list cmd := map snd (filter (fun w => negb (fst w)) ws).
+Definition runnable (ws : list wcmd) : list xcmd := map snd (filter (fun w => negb (fst w)) ws).
 
 Lemma runnable_plain ws : plain ws -> runnable ws = map snd ws.
 Proof.
@@ -168,16 +203,20 @@ Proof.
   destruct b; simpl; [discriminate|]. intros H. rewrite IH; auto.
 Qed.
 
-Lemma will_steps_engine_self c cm ev : ghostfree ev -> will_steps c (CEngine c true cm :: ev) = [cm].
-Proof. intros G. simpl. rewrite N.eqb_refl. rewrite ghostfree_will_steps; auto. Qed.
-Lemma will_steps_engine_other c c' w cm ev : c <> c' -> ghostfree ev -> will_steps c' (CEngine c w cm :: ev) = [].
+Lemma will_steps_engine_self c cm ev : ghostfree ev -> will_steps c (gh c true cm :: ev) = [cm].
+Proof. intros G. unfold gh. destruct (db_missing cm); simpl; rewrite N.eqb_refl; rewrite ghostfree_will_steps; auto. Qed.
+Lemma will_steps_engine_other c c' w cm ev : c <> c' -> ghostfree ev -> will_steps c' (gh c w cm :: ev) = [].
 Proof.
-  intros D G. simpl. destruct w.
+  intros D G. unfold gh. destruct (db_missing cm); simpl; destruct w.
+  - destruct (c =? c') eqn:E; [apply N.eqb_eq in E; congruence|]. apply ghostfree_will_steps; auto.
+  - apply ghostfree_will_steps; auto.
   - destruct (c =? c') eqn:E; [apply N.eqb_eq in E; congruence|]. apply ghostfree_will_steps; auto.
   - apply ghostfree_will_steps; auto.
 Qed.
-Lemma regs_engine c0 c w cm ev : ghostfree ev -> regs c0 (CEngine c w cm :: ev) = [].
-Proof. intros G. simpl. apply ghostfree_regs; auto. Qed.
+Lemma will_steps_engine_req c0 c cm ev : ghostfree ev -> will_steps c0 (gh c false cm :: ev) = [].
+Proof. intros G. unfold gh. destruct (db_missing cm); simpl; apply ghostfree_will_steps; auto. Qed.
+Lemma regs_engine c0 c w cm ev : ghostfree ev -> regs c0 (gh c w cm :: ev) = [].
+Proof. intros G. unfold gh. destruct (db_missing cm); simpl; apply ghostfree_regs; auto. Qed.
 
 Ltac exec_case cf st c cm E :=
   let ev := fresh "ev" in let Hs := fresh "Hs" in let G := fresh "G" in
@@ -210,7 +249,7 @@ Proof.
   - exec_case cf st c cm E.
     destruct o.
     + specialize (IH st1). destruct (run_wills cf st1 c rest) as [[st2 ev2] ok]. cbn [fst snd] in *.
-      change (CEngine c true cm :: ev ++ ev2) with ((CEngine c true cm :: ev) ++ ev2).
+      change (gh c true cm :: ev ++ ev2) with ((gh c true cm :: ev) ++ ev2).
       rewrite regs_app, IH, regs_engine; auto.
     + cbn [fst snd]. apply regs_engine; auto.
     + cbn [fst snd]. apply regs_engine; auto.
@@ -232,7 +271,7 @@ Proof.
     destruct o.
     + specialize (IH st1). destruct (run_wills cf st1 c rest) as [[st2 ev2] ok]. cbn [fst snd] in *.
       destruct IH as [I1 I2]. split.
-      * change (CEngine c true cm :: ev ++ ev2) with ((CEngine c true cm :: ev) ++ ev2).
+      * change (gh c true cm :: ev ++ ev2) with ((gh c true cm :: ev) ++ ev2).
         rewrite will_steps_app, I1, will_steps_engine_other; auto.
       * congruence.
     + cbn [fst snd]. split; [apply will_steps_engine_other; auto|]. cbn [set_dead cs_wills]. congruence.
@@ -254,7 +293,7 @@ Proof.
     destruct o.
     + specialize (IH st1). destruct (run_wills cf st1 c rest) as [[st2 ev2] ok]. cbn [fst snd] in *.
       intros H. destruct (IH H) as (I1 & I2 & I3). split; [|split; congruence].
-      change (CEngine c true cm :: ev ++ ev2) with ((CEngine c true cm :: ev) ++ ev2).
+      change (gh c true cm :: ev ++ ev2) with ((gh c true cm :: ev) ++ ev2).
       rewrite will_steps_app, I1, will_steps_engine_self; auto.
     + cbn [fst snd]. discriminate.
     + cbn [fst snd]. discriminate.
@@ -342,8 +381,8 @@ Proof.
   repeat split; auto. apply wills_of_ext. rewrite Hw. reflexivity.
 Qed.
 
-Ltac cbn_cs := cbn [fst snd cs_db cs_conns cs_clients cs_wills cs_rs cs_dead cs_stuck set_db set_rs set_conns set_clients
-                      set_wills set_dead add_stuck regs will_steps map app k_open k_kind k_inited k_cid].
+Ltac cbn_cs := cbn [fst snd cs_db cs_conns cs_clients cs_wills cs_rs cs_ever cs_dead cs_stuck set_db set_rs set_conns set_clients
+                      set_wills set_dead add_stuck add_ever regs will_steps map app k_open k_kind k_inited k_cid].
 
 Lemma step_open cf st a c kr :
   aget (cs_conns st) c = Some kr -> k_open kr = true -> plain (wills_of st c) ->
@@ -367,9 +406,9 @@ Proof.
       repeat split; auto.
     + exists kr. cbn_cs. rewrite aget_aset_other by auto. rewrite app_nil_r. repeat split; auto.
   - (* CReq *)
-    left. destruct (usable st c'); [|apply still_open_same; auto].
+    left. destruct (usable st c' && modelled (k_kind (conn_of (cs_conns st) c')) cm); [|apply still_open_same; auto].
     set (st0 := match k_kind (conn_of (cs_conns st) c') with
-                | KText => set_rs st (set_await (cs_rs st) c' (c_req cm)) | KBin => st end).
+                | KText => set_rs st (set_await (cs_rs st) c' (c_req (x_cmd cm))) | KBin => st end).
     assert (F0 : cs_conns st0 = cs_conns st /\ cs_wills st0 = cs_wills st).
     { unfold st0. destruct (k_kind (conn_of (cs_conns st) c')); auto. }
     destruct (exec_req_shape cf st0 c' cm false) as [ev [Hs G]].
@@ -380,16 +419,16 @@ Proof.
     + destruct o; cbn; congruence.
     + destruct o; cbn; congruence.
     + apply regs_engine; auto.
-    + simpl. apply ghostfree_will_steps; auto.
+    + apply will_steps_engine_req; auto.
   - (* CWill *)
-    left. destruct (usable st c') eqn:U; [|apply still_open_same; auto].
+    left. destruct (usable st c' && modelled (k_kind (conn_of (cs_conns st) c')) cm) eqn:U; [|apply still_open_same; auto].
     destruct (N.eq_dec c' c) as [->|D].
     + assert (K : conn_of (cs_conns st) c = kr) by (unfold conn_of; rewrite Hc; reflexivity).
       rewrite K. destruct (k_kind kr) eqn:Kk.
       * cbn [fst snd]. exists kr. cbn_cs. rewrite N.eqb_refl. repeat split; auto.
         unfold wills_of at 1. cbn_cs. rewrite aget_aset_same. reflexivity.
       * destruct (Hfix eq_refl) as [FL FU].
-        assert (W : will_typed cf cm = false) by (unfold will_typed; destruct (c_lock cm); [rewrite FL|rewrite FU]; reflexivity).
+        assert (W : will_typed cf cm = false) by (unfold will_typed; destruct (c_lock (x_cmd cm)); [rewrite FL|rewrite FU]; reflexivity).
         rewrite W. cbn [fst snd]. exists kr. cbn_cs. rewrite N.eqb_refl. repeat split; auto.
         unfold wills_of at 1. cbn_cs. rewrite aget_aset_same. reflexivity.
     + assert (N1 : (c' =? c) = false) by (apply N.eqb_neq; auto).
@@ -464,13 +503,13 @@ Proof.
   - destruct (aget (cs_conns st) c'); reflexivity.
   - destruct (aget (cs_conns st) c') as [k'|]; [|reflexivity].
     destruct (k_open k' && match k_kind k' with KBin => true | KText => false end); reflexivity.
-  - destruct (usable st c'); [|reflexivity].
+  - destruct (usable st c' && modelled (k_kind (conn_of (cs_conns st) c')) cm); [|reflexivity].
     set (st0 := match k_kind (conn_of (cs_conns st) c') with
-                | KText => set_rs st (set_await (cs_rs st) c' (c_req cm)) | KBin => st end).
+                | KText => set_rs st (set_await (cs_rs st) c' (c_req (x_cmd cm))) | KBin => st end).
     destruct (exec_req_shape cf st0 c' cm false) as [ev [Hs G]].
     destruct (exec_req cf st0 c' cm false) as [[st1 ev1] o]. cbn [fst snd] in *. subst ev1.
-    simpl. apply ghostfree_will_steps; auto.
-  - destruct (usable st c'); [|reflexivity].
+    destruct o; apply will_steps_engine_req; auto.
+  - destruct (usable st c' && modelled (k_kind (conn_of (cs_conns st) c')) cm); [|reflexivity].
     destruct (k_kind (conn_of (cs_conns st) c')); reflexivity.
   - assert (D : c' <> c) by (intros ->; apply NC; reflexivity).
     destruct (aget (cs_conns st) c') as [k'|]; [|reflexivity].
@@ -508,14 +547,14 @@ Proof.
         destruct (k_open k' && match k_kind k' with KBin => true | KText => false end) eqn:U; [|eauto].
         assert (c' <> c). { intros ->. rewrite Hc in E. inversion E; subst k'. rewrite Ho in U. discriminate. }
         exists kr. cbn_cs. rewrite aget_aset_other by auto. auto.
-      * destruct (usable st c'); [|eauto].
+      * destruct (usable st c' && modelled (k_kind (conn_of (cs_conns st) c')) cm); [|eauto].
         set (st0 := match k_kind (conn_of (cs_conns st) c') with
-                    | KText => set_rs st (set_await (cs_rs st) c' (c_req cm)) | KBin => st end).
+                    | KText => set_rs st (set_await (cs_rs st) c' (c_req (x_cmd cm))) | KBin => st end).
         assert (F0 : cs_conns st0 = cs_conns st) by (unfold st0; destruct (k_kind (conn_of (cs_conns st) c')); auto).
         pose proof (exec_req_frame cf st0 c' cm false) as Fr. cbv zeta in Fr.
         destruct (exec_req cf st0 c' cm false) as [[st1 ev1] o]. cbn [fst snd] in *.
         destruct Fr as (F1 & _). exists kr. destruct o; cbn_cs; rewrite F1, F0; auto.
-      * destruct (usable st c'); [|eauto].
+      * destruct (usable st c' && modelled (k_kind (conn_of (cs_conns st) c')) cm); [|eauto].
         destruct (k_kind (conn_of (cs_conns st) c')); exists kr; cbn_cs; auto.
       * assert (D : c' <> c) by (intros ->; apply NC; reflexivity).
         destruct (aget (cs_conns st) c') as [k'|] eqn:E; [|eauto].
@@ -538,13 +577,14 @@ Proof.
       * destruct (aget (cs_conns st) c'); reflexivity.
       * destruct (aget (cs_conns st) c') as [k'|]; [|reflexivity].
         destruct (k_open k' && match k_kind k' with KBin => true | KText => false end); reflexivity.
-      * destruct (usable st c'); [|reflexivity].
+      * destruct (usable st c' && modelled (k_kind (conn_of (cs_conns st) c')) cm); [|reflexivity].
         set (st0 := match k_kind (conn_of (cs_conns st) c') with
-                    | KText => set_rs st (set_await (cs_rs st) c' (c_req cm)) | KBin => st end).
+                    | KText => set_rs st (set_await (cs_rs st) c' (c_req (x_cmd cm))) | KBin => st end).
         destruct (exec_req_shape cf st0 c' cm false) as [ev [Hs G]].
         destruct (exec_req cf st0 c' cm false) as [[st1 ev1] o]. cbn [fst snd] in *. subst ev1.
         apply regs_engine; auto.
-      * destruct (usable st c') eqn:U; [|reflexivity].
+      * destruct (usable st c' && modelled (k_kind (conn_of (cs_conns st) c')) cm) eqn:U; [|reflexivity].
+        apply andb_prop in U. destruct U as [U _].
         assert (D : (c' =? c) = false). { apply N.eqb_neq. intros ->. congruence. }
         destruct (k_kind (conn_of (cs_conns st) c')); cbn_cs; rewrite D; reflexivity.
       * destruct (aget (cs_conns st) c') as [k'|]; [|reflexivity].
@@ -571,14 +611,14 @@ Proof.
   - destruct (aget (cs_conns st) c'); auto.
   - destruct (aget (cs_conns st) c') as [k'|]; auto.
     destruct (k_open k' && match k_kind k' with KBin => true | KText => false end); auto.
-  - destruct (usable st c'); auto.
+  - destruct (usable st c' && modelled (k_kind (conn_of (cs_conns st) c')) cm); auto.
     set (st0 := match k_kind (conn_of (cs_conns st) c') with
-                | KText => set_rs st (set_await (cs_rs st) c' (c_req cm)) | KBin => st end).
+                | KText => set_rs st (set_await (cs_rs st) c' (c_req (x_cmd cm))) | KBin => st end).
     assert (F0 : cs_stuck st0 = cs_stuck st) by (unfold st0; destruct (k_kind (conn_of (cs_conns st) c')); auto).
     pose proof (exec_req_frame cf st0 c' cm false) as Fr. cbv zeta in Fr.
     destruct (exec_req cf st0 c' cm false) as [[st1 ev1] o]. cbn [fst snd] in *.
     destruct Fr as (_ & _ & _ & _ & F5). destruct o; cbn_cs; rewrite F5, F0; auto.
-  - destruct (usable st c'); auto. destruct (k_kind (conn_of (cs_conns st) c')); auto.
+  - destruct (usable st c' && modelled (k_kind (conn_of (cs_conns st) c')) cm); auto. destruct (k_kind (conn_of (cs_conns st) c')); auto.
   - destruct (aget (cs_conns st) c') as [k'|]; auto.
     destruct (k_open k' && match k_kind k' with KBin => true | KText => negb (text_busy st c') end); auto.
     match goal with |- context [run_wills cf ?s c' ?w] => pose proof (run_wills_monotone cf c' w s) as [_ RM];
@@ -734,7 +774,7 @@ Qed.
 Lemma run_wills_db cf c ws : forall st,
   snd (run_wills cf st c ws) = true ->
   cs_db (fst (fst (run_wills cf st c ws))) =
-  fold_left (fun d cm => fst (step d (AReq c cm))) (runnable ws) (cs_db st).
+  fold_left (eng_step c) (runnable ws) (cs_db st).
 Proof.
   induction ws as [|[b cm] rest IH]; intros st; [reflexivity|].
   destruct b; simpl.
@@ -755,7 +795,7 @@ Theorem close_engine_effect cf st c kr :
   cs_dead (fst (cstep cf st (CClose c))) = false -> ~ In c (cs_stuck (fst (cstep cf st (CClose c)))) ->
   cs_db (fst (cstep cf st (CClose c))) =
   if k_open kr && match k_kind kr with KBin => true | KText => negb (text_busy st c) end
-  then fold_left (fun d cm => fst (step d (AReq c cm))) (runnable (wills_of st c)) (cs_db st)
+  then fold_left (eng_step c) (runnable (wills_of st c)) (cs_db st)
   else cs_db st.
 Proof.
   intros Hc Hd. unfold cstep. rewrite Hd, Hc.
@@ -789,7 +829,7 @@ Proof.
   - destruct (aget (cs_conns st) c'); reflexivity.
   - destruct (aget (cs_conns st) c') as [k'|]; [|reflexivity].
     destruct (k_open k' && match k_kind k' with KBin => true | KText => false end); reflexivity.
-  - destruct (usable st c'); [|reflexivity]. destruct (k_kind (conn_of (cs_conns st) c')); reflexivity.
+  - destruct (usable st c' && modelled (k_kind (conn_of (cs_conns st) c')) cm); [|reflexivity]. destruct (k_kind (conn_of (cs_conns st) c')); reflexivity.
 Qed.
 
 (* ------------------------------------------------------------------ reply routing *)
@@ -906,10 +946,10 @@ Proof.
   - eapply tinv_ext; [apply locked_result_target|exact T].
   - destruct (aget cl (k_cid (conn_of cs p))) as [c'|] eqn:Ec; [|exact T].
     eapply tinv_ext; [apply locked_result_target|].
-    destruct (is_open cs c'); [apply tinv_set; auto|exact T].
+    destruct (is_open cs c' || negb (chk_addproxy cf)); [apply tinv_set; auto|exact T].
   - destruct (aget cl (k_cid (conn_of cs p))) as [c'|] eqn:Ec; [|exact T].
     eapply tinv_ext; [apply locked_result_target|].
-    destruct (is_open cs c'); [apply tinv_set; auto|exact T].
+    destruct (is_open cs c' || negb (chk_addproxy cf)); [apply tinv_set; auto|exact T].
 Qed.
 
 Lemma sync_result_sound cf cs cl rs c r to o r' :
@@ -978,12 +1018,16 @@ Proof.
 Qed.
 
 (* ------------------------------------------------------------------ refutation witnesses (the faithful, unrepaired variant) *)
-Definition cf_unrepaired : cfg := mkCfg false false false false.
-Definition cf_text_will_only : cfg := mkCfg true true false false.
-Definition cf_repaired : cfg := mkCfg true true true true.
+Definition cf_unrepaired : cfg := mkCfg false false false false true.
+Definition cf_text_will_only : cfg := mkCfg true true false false true.
+Definition cf_repaired : cfg := mkCfg true true true true true.
+(* the AddProxy result ignored in ProxyServerProtocol.ProcessLockResultCommandLocked (everything else repaired) *)
+Definition cf_no_addproxy_check : cfg := mkCfg true true true true false.
 
-Definition lockc (req lockid key timeout expried : N) : cmd := make_cmd true req 0 lockid key 0 timeout 0 expried 0 0 None.
-Definition unlockc (req lockid key : N) : cmd := make_cmd false req 0 lockid key 0 0 0 0 0 0 None.
+Definition lockd (db req lockid key timeout expried : N) : xcmd := mkX db (make_cmd true req 0 lockid key 0 timeout 0 expried 0 0 None).
+Definition unlockd (db req lockid key : N) : xcmd := mkX db (make_cmd false req 0 lockid key 0 0 0 0 0 0 None).
+Definition lockc := lockd 0.
+Definition unlockc := unlockd 0.
 
 Definition run0 (cf : cfg) (acts : list caction) : cstate * list cevent :=
   let r := crun cf (init_cstate 1000000 1) acts in (fst r, events (snd r)).
